@@ -140,6 +140,10 @@ class BasebandReader(BaseReader):
                 if self.real_baseband:
                     fh.seek(2 * offset)
                     z = pb.utils.real_to_complex(fh.read(2 * n), axis=0)
+                    if offset % 2:
+                        # the -B/2 mixer starts at 0 for every read; keep its
+                        # phase exp(-i pi k / 2) tied to the absolute sample k
+                        z = -z
                 else:
                     fh.seek(offset)
                     z = fh.read(n)
